@@ -1,6 +1,7 @@
 """C09 – tokens are always given back and waiting jobs eventually run (Engine B part)"""
 from xvgen.plans import PlanProfile
 
+from . import enga_common as A
 from . import engb_common as E
 
 PROPERTY = "C09"
@@ -16,7 +17,17 @@ ASSUMPTIONS = [
 ]
 SHARDS = E.SHARDS
 TIMEOUT = E.TIMEOUT
-MINIMUMS = {"quick": {"distinct_plan_trace": 3000, "launch_events": 8000, "feature:foreign": 120, "feature:foreign:twostep": 50, "feature:tokens:2": 60}, "thorough": {"distinct_plan_trace": 100000, "launch_events": 250000, "feature:foreign": 5000, "feature:foreign:twostep": 2000, "feature:tokens:2": 2000}}
+MINIMUMS = {"quick": {"enga_runs": 10, "distinct_plan_trace": 3000, "launch_events": 8000, "feature:foreign": 120, "feature:foreign:twostep": 50, "feature:tokens:2": 60}, "thorough": {"distinct_plan_trace": 100000, "launch_events": 250000, "feature:foreign": 5000, "feature:foreign:twostep": 2000, "feature:tokens:2": 2000}}
 PROFILES = [PlanProfile(tokens=1, p_token=0.9, max_jobs=7, p_edge=0.2, p_fail=0.2), PlanProfile(tokens=2, p_token=0.9, two_tokens=0.7, p_edge=0.2), PlanProfile(tokens=1, p_token=0.9, foreign=0.9, twostep=0.7, p_edge=0.2), PlanProfile(tokens=2, p_token=0.8, foreign=0.7, twostep=0.5, two_tokens=0.5, p_fail=0.2), PlanProfile(tokens=1, p_token=0.9, multi_run=0.7, p_abort=0.8)]
-worker = E.make_worker(PROPERTY, PROFILES, {"quick": 1920, "thorough": 40000}, {"quick": 5, "thorough": 6}, nontrivial=lambda plan: sum(1 for j in plan["jobs"] if j["tokens"]) >= 2)
+_engb_worker = E.make_worker(PROPERTY, PROFILES, {"quick": 1920, "thorough": 40000}, {"quick": 5, "thorough": 6}, nontrivial=lambda plan: sum(1 for j in plan["jobs"] if j["tokens"]) >= 2)
 replay = E.make_replay(PROPERTY)
+
+
+NREAL = {"quick": 1, "thorough": 8}  # Engine-A stress runs per shard
+
+
+def worker(ctx):
+    """Engine B part (controlled schedules) followed by the Engine A part (real scheduler processes)."""
+    _engb_worker(ctx)
+    for _ in range(NREAL[ctx.tier]):
+        A.run_stress(ctx, PROPERTY, "token-kill", ctx.rng)
